@@ -49,6 +49,7 @@ class G:
         self.in_loop = 0
         self.feat = set()
         self.no_closure = False   # the checker rejects closures inside generator bodies
+        self.max_depth = rng.choice([1, 2, 2, 3])
 
     def var(self):
         self.nvar += 1
@@ -122,7 +123,7 @@ class G:
     def stmts(self, scope, depth, n=None):
         out = []
         scope = list(scope)
-        for _ in range(n if n is not None else self.rng.choice([1, 2, 2, 3, 4])):
+        for _ in range(n if n is not None else self.rng.choice([1, 1, 2, 2, 3])):
             out += self.stmt(scope, depth)
         return out
 
@@ -140,7 +141,7 @@ class G:
         pre = ["var %s: Int = %s" % (v, self.iexpr(scope, 2))]
         blocks = []
         bscope = list(body_scope)
-        for _ in range(self.rng.choice([1, 2, 2, 3, 4])):
+        for _ in range(self.rng.choice([1, 1, 2, 2, 3])):
             blocks.append(self.stmt(bscope, depth + 1))
         blocks.insert(self.rng.randrange(len(blocks) + 1), self.jump_stmt(body_scope))
         if self.rng.random() < 0.5:
@@ -179,7 +180,7 @@ class G:
 
     def stmt(self, scope, depth):
         r = self.rng.random()
-        if depth >= 3:
+        if depth >= self.max_depth:
             r = r * 0.3
         if r < 0.22:
             v = self.var()
@@ -273,13 +274,13 @@ def gen_program(rng, i, want=None):
            "    throw Error(\"t\") if a > 3",
            "    a",
            "  end"]
-    for m in range(rng.choice([1, 1, 2])):
+    for m in range(1):
         params = ["p%d" % k for k in range(rng.choice([0, 1, 2, 3]))]
         g.nvar = 0
-        body = g.stmts(list(params), 0, rng.choice([2, 3, 4, 5]))
+        body = g.stmts(list(params), 0, rng.choice([1, 2, 2, 3]))
         body.append(g.iexpr(list(params), 1) if True else "0")
         out += ["  def m%d(%s): Int ! Error" % (m, ", ".join("%s: Int" % p for p in params))] + g.ind(body, 2) + ["  end"]
-    r = rng.random()
+    r = rng.random() * 2.2   # about half of the programs carry one of the special method kinds
     if r < 0.25:
         g.feat.add("generator")
         g.nvar = 0
